@@ -431,6 +431,16 @@ func generate(rng *rand.Rand, steps int, profile string) ([]string, []string, ma
 				}
 			}
 			g.do("cmp")
+			if ch := g.chain(); len(ch) > 0 && rng.Intn(4) == 0 {
+				// the volume is reverted through the controller
+				g.do("crevert " + ch[rng.Intn(len(ch))].name)
+				g.feat["volume-revert"] = true
+				g.do("full")
+				for rng.Intn(2) == 0 {
+					g.write(rng)
+				}
+				g.do("cmp")
+			}
 			if rng.Intn(3) == 0 {
 				// one of the three RW replicas dies; I/O goes on with the other two
 				g.tagN++
